@@ -148,6 +148,28 @@ class MergerConfig:
             return AoHMergeOpts.from_str(self.config["defaults"]["aoh"])
         return AoHMergeOpts.ALL
 
+    def rule_merge_mode(self, node_coord: NodeCoords) -> Any:
+        """
+        Get the merge mode a user rule dictates for a Scalar or plain Array.
+
+        Only config[rules] apply to such nodes; the Array-of-Hashes default
+        and command-line option do not.
+
+        Parameters:
+        1. node_coord (NodeCoords) The node for which to query.
+
+        Returns:  (Any) The rule as an AoHMergeOpts value (so LEFT and RIGHT
+            compare like the other short-circuiting modes); None when no rule
+            matches the node.
+        """
+        merge_rule = self._get_rule_for(node_coord)
+        if merge_rule:
+            try:
+                return AoHMergeOpts.from_str(merge_rule)
+            except NameError:
+                return None
+        return None
+
     def set_merge_mode(self, node_coord: NodeCoords) -> SetMergeOpts:
         """
         Get Set merge mode applicable to the indicated path.
